@@ -63,7 +63,7 @@ CHECKS = {
          TB + "residual bound only monitored (known finding for BiCGSTAB); C12c: the local residual B u - rhs tested against any core equals the global residual A y - b tested against the train with that core (local_residual_galerkin), so an exact solution satisfies every local system exactly (exact_solution_local_fixed_point: the sweep leaves an exact solution where it is) and a solved local system makes the global residual orthogonal to the local variations (local_solution_galerkin_orthogonal); C12d: the block after the local solve (truncated SVD, enrichment, QR, absorption) never changes the represented tensor beyond the SVD truncation (update_full), and the residual-driven rank rule returns a rank in [1, min(n, rmax)] whose truncation passed the test unless it is the full rank (rankByResidual_bounds/_accepts; Python loop-variable quirk: never below 2); tie: res_new / res_old reported by the running loop are recomputed as the true local residuals through Kern.localProduct, the rank used is recomputed by Amen.rankByResidual from the recorded tests, the cores written back are recomputed by Amen.update on the factors of the run (direct and iterative local solvers, all preconditioners); translator tie for the six solver kernels (einsum2lean.py); GMRES/BiCGSTAB/torch.linalg.solve numerics outside the model (gmres / gmres_restart have direct contract cases); truncation/enrichment covered by M-trunc only; the loop itself is tied by observation: before every direct local solve of a running _amen_solve_python the assembled local matrix, the local right-hand side and the stored environments are recomputed by localProduct / localRhs / foldFwdA / foldBckA / foldFwdRhs / foldBckRhs in exact rationals (the environments of local_galerkin / rhs_galerkin are the ones the loop holds)", "§5 C12"),
  "C13": ("proof",
          "PARTIAL BY NATURE. Lean theorems: scalar division is exact and inverts scalar multiplication; diag(y) acts as the Hadamard product (so the system solved is y*q = x entrywise); the 3-index kernels of _division.py equal the C12 kernels on the diagonal embedding of the divisor core, hence the C12 Galerkin theorems transfer. "
-         "Tie: division kernels compared exactly with the models; ||q*y - x|| <= C·tol·||x|| (kind K) MONITORED for x/y, s/y, elementwise_divide with/without preconditioner and guess (C = 10).",
+         "Tie: division kernels compared exactly with the models; ||q*y - x|| <= C·tol·||x|| (kind K) MONITORED for x/y, s/y, elementwise_divide with/without preconditioner and guess (C = 10); every sixth case has a complex numerator (known finding C13/complex-gmres-local-solve: complex operands fail when a local system is large enough for the GMRES local solver; classified by counting the GMRES calls of the case).",
          TB + "residual bound only monitored; loop state of the running amen_divide (incl. the block after the local solve: reported residuals, rank rule, truncation + enrichment, tied to TTModel/AmenStep.lean as in C12; translator tie for the six division kernels) (local matrix, rhs, environments) recomputed by the C12 kernels and folds on diag(a)", "§5 C13"),
  "C14": ("proof",
          "Index safety at proof level, quality PARTIAL BY NATURE. Lean theorems over the index-bookkeeping model: every update of the left/right index sets by a decoded pivot (np.unravel_index) keeps every multi-index inside its mode sizes; every row of every eval_index matrix has length d and column k in [0, N[k]); lifted by an invariant over the exact loop schedule of dmrg_cross (init pass, then LR/RL sweeps, any number of sweeps, any order d) to ALL function calls of every run, given only that _maxvol returns row numbers below the number of rows (dmrg_cross_calls_inRange). "
